@@ -108,7 +108,7 @@ func VerifRun_Folders() {
 		return
 	}
 	ctx := context.Background()
-	if verifBool("fileOfTheFolderOpenBefore") {
+	if verifParamOr("OPENBEFORE", 1) == 1 && verifBool("fileOfTheFolderOpenBefore") {
 		_ = l.TextDocumentDidOpen(ctx, lsp.DidOpenTextDocumentParams{TextDocument: lsp.TextDocumentItem{URI: lsp.DocumentURI("file://" + utilF), Text: fdUtil}})
 	}
 	fd := lsp.WorkspaceFolder{URI: "file://" + shared, Name: "shared"}
